@@ -19,7 +19,7 @@ TOKENS = ["let", "fn", "true", "false", "if", "else", "return", "null", "map", "
           "continue", "match", "struct", "stdin", "end", "_", "a", "lbl", "1", "0x1", "0o7", "0b1", "1e",
           "1.e5", "1.5", '"s"', "'c'", "b'c'", ";", ",", ":", "(", ")", "{", "}", "[", "]", "+", "-", "*",
           "/", "%", "^", "~", "$", "@", "!", "!=", "&", "&&", "|", "||", "=", "==", "=>", "<", "<=", "<<",
-          ">", ">=", ">>", "..", "..=", ".a", "puts", "0x", "'", "b'"]
+          ">", ">=", ">>", "..", "..=", ".a", "puts", "0x", "'", "b'", '""']
 
 SEEDS = [
     "let a = 1; let b = a + 2 * 3; puts(a, b);",
